@@ -27,8 +27,9 @@ import (
 )
 
 type c03Row struct {
-	Kind string `json:"kind"` // lit | qint | qzero | neg | arith | func | null | oor | seqnull | seqnext
-	Key  string `json:"key"`  // literal text of the sharding value
+	Kind string `json:"kind"`           // lit | qint | qzero | neg | arith | func | null | oor | seqnull | seqnext
+	Key  string `json:"key"`            // literal text of the sharding value
+	PKey string `json:"pkey,omitempty"` // child-table inserts: literal for the column named like the parent's sharding column
 }
 
 type c03Case struct {
@@ -40,6 +41,8 @@ type c03Case struct {
 	OnDup   bool     `json:"ondup,omitempty"`
 	Style   string   `json:"style"` // bare | db | colq
 	KeyPos  int      `json:"key_pos"`
+	Child   bool     `json:"child,omitempty"` // insert into the linked child table (own sharding column)
+	PCol    bool     `json:"pcol,omitempty"`  // child insert also sets the column named like the parent's sharding column
 	Rows    []c03Row `json:"rows"`
 	SQL     string   `json:"sql,omitempty"`
 }
@@ -66,18 +69,27 @@ func (cs *c03Case) seqCol(c *plCfg) string {
 	return ""
 }
 
+// tblKey returns the logical table and sharding column the statement addresses.
+func (cs *c03Case) tblKey(c *plCfg) (string, string) {
+	if cs.Child {
+		return c.Child, c.ChildKey
+	}
+	return c.Table, c.Key
+}
+
 func c03SQL(c *plCfg, cs *c03Case) string {
 	verb := "INSERT INTO "
 	if cs.Replace {
 		verb = "REPLACE INTO "
 	}
-	tbl := c.Table
+	ltbl, lkey := cs.tblKey(c)
+	tbl := ltbl
 	if cs.Style == "db" {
-		tbl = c.DB + "." + c.Table
+		tbl = c.DB + "." + ltbl
 	}
 	q := ""
 	if cs.Style == "colq" {
-		q = c.Table + "."
+		q = ltbl + "."
 	}
 	// column order: payload columns with the key at KeyPos
 	names := []string{"v", "other"}
@@ -87,7 +99,16 @@ func c03SQL(c *plCfg, cs *c03Case) string {
 		if pos > len(names) {
 			pos = len(names)
 		}
-		names = append(names[:pos], append([]string{c.Key}, names[pos:]...)...)
+		names = append(names[:pos], append([]string{lkey}, names[pos:]...)...)
+	}
+	if cs.Child && cs.PCol {
+		// the parent's sharding column name is an ordinary column of the child; it comes first or
+		// last so that it sits on either side of the child's own key
+		if cs.KeyPos%2 == 0 {
+			names = append([]string{c.Key}, names...)
+		} else {
+			names = append(names, c.Key)
+		}
 	}
 	if cs.Seq == "seq" && !cs.SeqOmit {
 		names = append(names, "seq")
@@ -103,6 +124,9 @@ func c03SQL(c *plCfg, cs *c03Case) string {
 				return "nextval()"
 			}
 			return "NULL"
+		}
+		if cs.Child && cs.PCol && name == c.Key {
+			return cs.Rows[i].PKey
 		}
 		return cs.Rows[i].Key
 	}
@@ -151,6 +175,15 @@ func c03Restore(n ast.Node) string {
 		return "<restore error: " + err.Error() + ">"
 	}
 	return sb.String()
+}
+
+// c03Canon renders a literal text the way Restore prints it.
+func c03Canon(lit string) string {
+	st, err := parser.ParseSQL("SELECT " + lit)
+	if err != nil {
+		return lit
+	}
+	return c03Restore(st.(*ast.SelectStmt).Fields.Fields[0].Expr)
 }
 
 type c03Written struct {
@@ -243,15 +276,15 @@ func c03Stored(c *plCfg, e ast.ExprNode) (string, bool) {
 var c03LookupCache = map[string]int{}
 
 // c03Lookup routes `SELECT * FROM t WHERE key = lit` through the real planner; -1 = not one table.
-func c03Lookup(c *plCfg, seq, lit string) int {
-	k := c.ID + "|" + seq + "|" + lit
+func c03Lookup(c *plCfg, seq, tbl, key, lit string) int {
+	k := c.ID + "|" + seq + "|" + tbl + "|" + lit
 	if v, ok := c03LookupCache[k]; ok {
 		return v
 	}
 	res := -1
-	pl := plBuild(c, c.DB, "SELECT * FROM "+c.Table+" WHERE "+c.Key+" = "+lit)
+	pl := plBuild(c, c.DB, "SELECT * FROM "+tbl+" WHERE "+key+" = "+lit)
 	if !pl.Rejected() {
-		idxs, unknown, err := plDecodeTargets(c, c.Table, plFlatten(pl.SQLs))
+		idxs, unknown, err := plDecodeTargets(c, tbl, plFlatten(pl.SQLs))
 		if err == nil && len(unknown) == 0 && len(idxs) == 1 {
 			res = idxs[0]
 		}
@@ -301,7 +334,8 @@ func c03Run(cs *c03Case) (res c03Result) {
 		res.Clause, res.Detail = "failed-after-writing", fmt.Sprintf("ExecuteIn returned %v after %d statements had been sent", err, len(x.Sent))
 		return
 	}
-	written, bad := c03Decode(c, c.Table, x.Sent)
+	ltbl, lkey := cs.tblKey(c)
+	written, bad := c03Decode(c, ltbl, x.Sent)
 	if bad != "" {
 		res.Clause, res.Detail = "bad-target", bad
 		return
@@ -369,7 +403,7 @@ func c03Run(cs *c03Case) (res c03Result) {
 			res.Clause, res.Detail = "value-changed", fmt.Sprintf("column other of row %d differs in sent text: %s", i, c03Restore(w.Stmt))
 			return
 		}
-		ke, ok := w.Cols[c.Key]
+		ke, ok := w.Cols[lkey]
 		if !ok {
 			res.Clause, res.Detail = "key-missing", "sharding column absent from sent text: "+c03Restore(w.Stmt)
 			return
@@ -400,10 +434,16 @@ func c03Run(cs *c03Case) (res c03Result) {
 			res.Clause, res.Detail = "unroutable-written", fmt.Sprintf("row %d written with sharding value %s which is no literal of the column type", i, c03Restore(ke))
 			return
 		}
-		want := c03Lookup(c, cs.seqCol0(), stored)
+		if cs.Child && cs.PCol {
+			if pe, ok := w.Cols[c.Key]; !ok || c03Restore(pe) != c03Canon(r.PKey) {
+				res.Clause, res.Detail = "value-changed", fmt.Sprintf("column %s of row %d differs in sent text: %s", c.Key, i, c03Restore(w.Stmt))
+				return
+			}
+		}
+		want := c03Lookup(c, cs.seqCol0(), ltbl, lkey, stored)
 		if want != w.Idx {
 			res.Clause = "wrong-table"
-			res.Detail = fmt.Sprintf("row %d (key %s) written to %s but `SELECT .. WHERE %s = %s` is routed to table index %d", i, r.Key, w.Addr.String(), c.Key, stored, want)
+			res.Detail = fmt.Sprintf("row %d (key %s) written to %s but `SELECT .. WHERE %s = %s` is routed to table index %d", i, r.Key, w.Addr.String(), lkey, stored, want)
 			return
 		}
 	}
@@ -533,6 +573,16 @@ func c03Minimize(cs *c03Case, clause string) (*c03Case, string) {
 			x.KeyPos = 0
 			cands = append(cands, &x)
 		}
+		if cur.Child {
+			x := cur
+			x.Child, x.PCol = false, false
+			cands = append(cands, &x)
+			if cur.PCol {
+				y := cur
+				y.PCol = false
+				cands = append(cands, &y)
+			}
+		}
 		if cur.Seq != "" {
 			ok := true
 			for _, row := range cur.Rows {
@@ -551,7 +601,7 @@ func c03Minimize(cs *c03Case, clause string) (*c03Case, string) {
 				if k, ok := c03KeyOf(r, c, "lit"); ok {
 					x := cur
 					x.Rows = append([]c03Row(nil), cur.Rows...)
-					x.Rows[i] = c03Row{Kind: "lit", Key: k}
+					x.Rows[i] = c03Row{Kind: "lit", Key: k, PKey: row.PKey}
 					cands = append(cands, &x)
 				}
 			}
@@ -594,6 +644,13 @@ func c03Minimize(cs *c03Case, clause string) (*c03Case, string) {
 	}
 	if cur.KeyPos != 0 {
 		parts = append(parts, "keypos")
+	}
+	if cur.Child {
+		if cur.PCol {
+			parts = append(parts, "linked-child+parent-key-column")
+		} else {
+			parts = append(parts, "linked-child")
+		}
 	}
 	c03Run(&cur)
 	return &cur, strings.Join(parts, "|")
@@ -699,8 +756,13 @@ func TestVerif_C03(t *testing.T) {
 			rec.Count("has_unroutable_"+outcome, 1)
 		}
 		rec.Count("rows_written", int64(res.Written))
-		if len(cs.Rows) > 1 || !allRoutable || cs.Seq != "" {
-			rec.Nontrivial(c.Type + "|" + cs.Form + "|" + strings.Join(kinds, "+") + "|" + cs.Seq + "|" + outcome)
+		if len(cs.Rows) > 1 || !allRoutable || cs.Seq != "" || cs.Child {
+			tgt := "parent"
+			if cs.Child {
+				tgt = "linked-child"
+				rec.Count("child_"+outcome, 1)
+			}
+			rec.Nontrivial(c.Type + "|" + tgt + "|" + cs.Form + "|" + strings.Join(kinds, "+") + "|" + cs.Seq + "|" + outcome)
 			rec.Sample(map[string]interface{}{"cfg": cs.Cfg, "sql": cs.SQL, "outcome": outcome, "rows_written": res.Written})
 		}
 		if res.Clause != "" {
@@ -737,6 +799,7 @@ func TestVerif_C03(t *testing.T) {
 		ids = append(ids, id)
 	}
 
+	pr := kit.SubRand(kit.Seed(), "C03/parent-column")
 	mk := func(r *kit.Rand, c *plCfg, kinds []string) ([]c03Row, bool) {
 		rows := make([]c03Row, len(kinds))
 		for i, k := range kinds {
@@ -744,7 +807,10 @@ func TestVerif_C03(t *testing.T) {
 			if !ok {
 				return nil, false
 			}
-			rows[i] = c03Row{Kind: k, Key: key}
+			// value for the column named like the parent's sharding column (child inserts only),
+			// chosen independently of the child's own key
+			pk, _ := c03KeyOf(pr, c, "lit")
+			rows[i] = c03Row{Kind: k, Key: key, PKey: pk}
 		}
 		return rows, true
 	}
@@ -778,6 +844,21 @@ func TestVerif_C03(t *testing.T) {
 		}
 		for _, st := range []string{"bare", "db"} {
 			c03Global(rec, c, st, 1+len(id)%3)
+		}
+		// linked child table: its own sharding column differs from the parent's, and the column
+		// named like the parent's key carries an independent value
+		for _, k1 := range c03Kinds {
+			for _, pcol := range []bool{true, false} {
+				if rows, ok := mk(r, c, []string{k1}); ok {
+					runOne(&c03Case{Cfg: id, Form: "values", Style: "bare", KeyPos: 1, Child: true, PCol: pcol, Rows: rows})
+					runOne(&c03Case{Cfg: id, Form: "set", Style: "db", KeyPos: 0, Child: true, PCol: pcol, Replace: pcol, Rows: rows})
+				}
+			}
+			for _, k2 := range c03Kinds {
+				if rows, ok := mk(r, c, []string{k1, k2, "lit"}); ok {
+					runOne(&c03Case{Cfg: id, Form: "values", Style: "bare", KeyPos: len(k1) % 3, Child: true, PCol: true, Replace: k1 == k2, Rows: rows})
+				}
+			}
 		}
 	}
 
@@ -821,6 +902,33 @@ func TestVerif_C03(t *testing.T) {
 			// the sharding column is not in the statement: every value is generated
 			for j := range kinds {
 				kinds[j] = "seqnext"
+			}
+		}
+		rows, ok := mk(r, c, kinds)
+		if !ok {
+			continue
+		}
+		cs.Rows = rows
+		runOne(cs)
+	}
+
+	// (3) random statements on the linked child tables
+	r = kit.SubRand(kit.Seed(), "C03/child")
+	for i := 0; i < kit.N(800, 20000); i++ {
+		id := ids[r.Intn(len(ids))]
+		c, _ := plGetCfg(id, "")
+		cs := &c03Case{Cfg: id, Form: "values", Style: []string{"bare", "db", "colq"}[r.Intn(3)], KeyPos: r.Intn(3),
+			Replace: r.Chance(1, 3), OnDup: r.Chance(1, 4), Child: true, PCol: r.Chance(3, 4)}
+		nrows := r.Range(1, 5)
+		if r.Chance(1, 5) {
+			cs.Form, nrows = "set", 1
+		}
+		var kinds []string
+		for j := 0; j < nrows; j++ {
+			if r.Chance(3, 4) {
+				kinds = append(kinds, []string{"lit", "lit", "qint", "qzero"}[r.Intn(4)])
+			} else {
+				kinds = append(kinds, c03Kinds[r.Intn(len(c03Kinds))])
 			}
 		}
 		rows, ok := mk(r, c, kinds)
